@@ -229,6 +229,18 @@ root("spaceref",
      [q("S", "f", 0), q("S", "f2", 0), q("S", "g", 0)])
 
 
+# 13. a chain through two uncached levels to an attribute-path / by-name reference, caller in another space
+root("uncachain",
+     {"spaces": {"S": {"cells": {"c": L + "u1(x) + 1", "u1": L + "u2(x)", "u2": L + "T.q + x"},
+                       "spaces": {"T": {"refs": {"q": 1}}}},
+                 "O": {"refs": {"s": obj("S"), "w": 1},
+                       "cells": {"oc": L + "s.u1(x) + w", "ob": L + "s.c(x)"}}}},
+     [q("S", "c", 0), q("S", "c", 1), q("O", "oc", 0), q("O", "ob", 0)],
+     [set_ref("S.T", "q", 2), del_ref("S.T", "q"), set_ref("", "q", 9), set_ref("O", "w", 2),
+      set_cached("S", "u1", False), set_cached("S", "u1", True), set_cached("S", "u2", False),
+      set_cached("S", "u2", True), set_cached("S", "c", False), set_formula("S", "u2", L + "T.q + x + 100")],
+     [q("S", "c", 0), q("O", "oc", 0)])
+
 # 12. a model-level reference reached by attribute path through a space, then shadowed / un-shadowed there
 root("shadowattr",
      {"refs": {"w": 1},
@@ -271,7 +283,22 @@ def _add_clear_ops():
         r["edits"] = r["edits"] + extra
 
 
+def _add_flag_ops():
+    """Both directions of the cached flag for every cells of every root."""
+    for r in ROOTS.values():
+        def rec(prefix, d):
+            for n, sd in d.items():
+                for cn in sd.get("cells", {}):
+                    for v in (False, True):
+                        op = set_cached(prefix + n, cn, v)
+                        if op not in r["edits"]:
+                            r["edits"] = r["edits"] + [op]
+                rec(prefix + n + ".", sd.get("spaces", {}))
+        rec("", r["spec"]["spaces"])
+
+
 _add_clear_ops()
+_add_flag_ops()
 
 
 def root_names(tier):
